@@ -37,8 +37,10 @@ class GradientCase(Case):
     def __init__(self, cid, *, N, R, P, K=1, C=0, mask=None, design="random", shared=False, seed=0, pmin=1, rmin=1,
                  merge=False, estimators=("mean",), obj_est=None, con_est=None, weights=None, symflags="all",
                  boundary="truncate_both", lower=-100.0, upper=100.0, x=None, magnitude=0.1, split=False,
-                 identical=False, sampler_map=None, filters=(), obj_filt=None):
+                 identical=False, sampler_map=None, filters=(), obj_filt=None, nan_col=None):
         self.id = cid
+        if nan_col == "last":   # failures show up in the last function (a constraint when C > 0) only
+            self.nan_col = lambda r, p, _f=K + C - 1: _f
         self.N, self.R, self.P, self.K, self.C = N, R, P, K, C
         self.mask = list(mask) if mask is not None else None
         self.free = [j for j in range(N) if mask is None or mask[j]]
@@ -374,6 +376,11 @@ def build_cases(tier):
     add(N=3, R=2, P=3, mask=(True, False, True), sampler_map=(0, 0, 1), symflags="unperturbed")
     add(N=3, R=2, P=3, mask=(False, True, True), sampler_map=(1, 0, 1), symflags="none", K=2)
     add(N=2, R=2, P=2, symflags="all", boundary="mirror_both", lower=-0.05, upper=0.05, x=(0.0, 0.03), magnitude=0.1)
+    # a realization that fails in a constraint value only; constraints outnumbering objectives
+    add(N=2, R=2, P=3, K=1, C=2, symflags="all", nan_col="last")
+    # objectives and constraints mapped to different estimators
+    add(N=1, R=2, P=2, K=2, C=1, estimators=("mean", "stddev"), obj_est=(1, 0), con_est=(0,), symflags="unperturbed",
+        weights=(Fraction(2, 3), Fraction(1, 3)))
     # stddev chain rule
     # (concrete weights: with symbolic weights the sqrt axioms make even path feasibility a hard NRA problem)
     add(N=2, R=2, P=2, estimators=("stddev",), symflags="none", design="axes", weights=(Fraction(1, 4), Fraction(3, 4)))
@@ -399,7 +406,7 @@ def build_cases(tier):
 
 META = dict(
     bounds={"quick": "L1: thin m x n systems m<=4, n<=3 with exact rational orthogonal factors and symbolic singular values; "
-                     "L2: N<=3 variables, R<=3, P<=4, K<=2, C<=1, slopes/offsets in [-1000,1000], concrete designs drawn from VERIF_SEED",
+                     "L2: N<=3 variables, R<=3, P<=4, K<=2, C<=2, slopes/offsets in [-1000,1000], concrete designs drawn from VERIF_SEED",
             "thorough": "L2: 5 more seeds per shape, R<=4, P<=4, N<=3",
             "outside": "symbolic perturbation matrices (NumPy's SVD runs on concrete deltas: z3 NRA cannot encode the SVD contract for n>=2); "
                        "merged estimation with symbolic realization weights; standard-deviation gradients beyond R=2; rounding beyond 1e-6*(1+1000)"},
